@@ -69,9 +69,13 @@ CHECKS["C15"] = dict(
           "converts to its residue, canonically; fromS64/fromS32 on all two's-complement values; toU64 canonical; toS64 centred; "
           "toS32 succeeds exactly on [-2^31, 2^31); the three round trips (incl. INT32_MIN); predicates depend only on the "
           "residue class. The pinned tree violated this (D1, D2: found with replays by this check, repaired by fix: commits). "
-          "Tie: correspondence with the compiled conversions incl. GMP, radix 2..36, up to 400-bit integers."),
-    technique="Lean 4 proof over a hand-written model (Int/BitVec arithmetic) + correspondence with the implementation",
-    design="§4 C15", note=NOTE_BASE + " GMP numeral parsing and mpz arithmetic are modelled, not verified.")
+          "Tie: correspondence with the compiled conversions incl. GMP, radix 2..36, up to 400-bit integers. ALSO (tighter tie): "
+          "fromS64/fromS32/fromString/fromScalar/toS64/toS32/toString are translated from goldilocks_base_field_tools.hpp on every "
+          "run (mpz_class arithmetic on Int, % = truncated remainder, get_ui/get_si as GMP computes them; GMP's numeral parser and "
+          "printer stay modelled as externs) and bridge theorems C15_generated_* prove every generated function EQUAL to the hand "
+          "model, so the statements above hold of the regenerated code; the generated functions are executed against the code too."),
+    technique="Lean 4 proof over a hand-written model (Int/BitVec arithmetic) and over the model translated from the source (bridge theorems) + correspondence with the implementation",
+    design="§4 C15, DESIGN.CONV.md", note=NOTE_BASE + " GMP numeral parsing/printing are modelled, not verified; mpz arithmetic is stated on Int.")
 
 CHECKS["C09"] = dict(
     text=("Machine-checked theorems (Props/C09.lean) about Gen/Ext.lean, regenerated from goldilocks_cubic_extension.hpp "
